@@ -98,6 +98,32 @@ def norm_expr(e):
     return e
 
 
+FOREIGN_BASE = 1000000
+
+
+def rebase_locals(e, off, h=None, host=None):
+    """add `off` to the local ids inside ('var', name, id) / ('iv', id) nodes of a helper's expression"""
+    if not isinstance(e, tuple) or not e:
+        return e
+    if e[0] == "iv" and len(e) == 2 and isinstance(e[1], int):
+        return ("iv", _rebase_id(e[1], off, h, host))
+    if e[0] == "var" and len(e) == 3 and isinstance(e[2], int):
+        return ("var", e[1], _rebase_id(e[2], off, h, host))
+    return tuple(rebase_locals(y, off, h, host) if isinstance(y, tuple) else y for y in e)
+
+
+def _rebase_id(i, off, h, host):
+    if i >= FOREIGN_BASE and h is not None and host is not None:
+        # the helper itself spliced in another helper: re-register that one with the host
+        f = h.foreign_of(i)
+        if f:
+            outer = host.foreign_of(off + 1)[2]
+            off2 = host.register_foreign(("nested", off, i // FOREIGN_BASE), f[0], lambda x, a=f[2], o=outer: o(a(x)))
+            return off2 + f[1]
+        return i
+    return off + i
+
+
 def subst_expr(e, mapping):
     if not isinstance(e, tuple):
         return e
@@ -275,11 +301,37 @@ class Body:
         return s
 
     def local_name(self, l):
+        f = self.foreign_of(l)
+        if f:
+            return f[0].local_name(f[1])
         d = self.locals[l]
         return d.get("name") or "_%d" % l
 
     def local_ty(self, l):
+        f = self.foreign_of(l)
+        if f:
+            return f[0].local_ty(f[1])
         return self.locals[l]["ty"]
+
+    # ---- locals of helpers whose events were spliced into this body (storage._inline_helper) -----------------
+    def foreign_of(self, l):
+        """(helper body, its local id, translation of its expressions into this body's terms) for a local id that
+        stands for a helper's local/iterator inside spliced events; None for this body's own locals"""
+        if isinstance(l, int) and l >= FOREIGN_BASE:
+            k, i = divmod(l, FOREIGN_BASE)
+            fs = self.__dict__.get("_foreign", [])
+            if k - 1 < len(fs):
+                return fs[k - 1][1], i, fs[k - 1][2]
+        return None
+
+    def register_foreign(self, key, h, tr):
+        """reserve an id range for the locals of helper h; returns the offset to add to h's local ids"""
+        fs = self.__dict__.setdefault("_foreign", [])
+        for k, f in enumerate(fs):
+            if f[0] == key:
+                return FOREIGN_BASE * (k + 1)
+        fs.append((key, h, tr))
+        return FOREIGN_BASE * len(fs)
 
     # ---- CFG ----------------------------------------------------------------
     def term(self, b):
@@ -492,6 +544,8 @@ class Body:
         return self._defs
 
     def full_defs(self, l):
+        if self.foreign_of(l):
+            return []
         return [x for x in self.defs.get(l, []) if x[0] == "full"]
 
     def is_param(self, l):
@@ -504,7 +558,8 @@ class Body:
             return ("fnref", f["name"], callee_qual(f))
         if "uneval_name" in o and o["uneval_name"]:
             qual = short_ty(o.get("uneval", ""))
-            return ("assoc", o["uneval_name"], qual)
+            ua = tuple(short_ty(re.sub(r"/#\d+", "", a)) for a in (o.get("uargs") or ()))
+            return ("assoc", o["uneval_name"], qual, ua) if ua else ("assoc", o["uneval_name"], qual)
         if "tyconst" in o:
             return ("cparam", re.sub(r"/#\d+", "", o["tyconst"]))
         if "int" in o and o["ty"] not in ("bool", "char"):
@@ -631,6 +686,10 @@ class Body:
 
     def init_expr(self, l):
         """expression of the (single) full definition of a local, even if it is later mutated"""
+        f = self.foreign_of(l)
+        if f:
+            e = f[0].init_expr(f[1])
+            return f[2](e) if e is not None else None
         full = self.full_defs(l)
         if len(full) != 1:
             return None
@@ -969,6 +1028,9 @@ class Body:
 
     def iv_name(self, iter_local):
         """user name bound to the item of `iter_local`'s next(), if any"""
+        f = self.foreign_of(iter_local)
+        if f:
+            return f[0].iv_name(f[1])
         for l, d in enumerate(self.locals):
             if d.get("name") and d["user"]:
                 fd = self.full_defs(l)
@@ -1145,6 +1207,7 @@ def linear(e):
                 if isinstance(x[3], tuple) and x[3][:1] == ("int",):
                     add(x[2], k * x[3][1])
                     return
+                x = ("bin", "Mul") + tuple(sorted((x[2], x[3]), key=repr))     # a * b and b * a are one atom
             if x[0] == "iv":
                 x = ("iv",)
         coefs[x] = coefs.get(x, 0) + k
